@@ -74,12 +74,11 @@ func c14(c *q.Ctx) {
 		c.Gate(hv, "CalVotesThreshold", q.ToCall("QCPendingTree.updateHighQC"), q.Opt{})
 		// de-duplication by address before appending
 		c.Guard(hv, q.Cond{Canon: "(*[].Address == *SignInfos[0].Address)", Sense: true}, q.ToCallSameIter("append"), q.Opt{})
-		c.Effect(hv, q.Eff{Spec: "append", Arg: 1, Glob: "[*SignInfos[0]]", Req: []q.Cond{{Canon: "phi{*true*}", Sense: false}}, Why: "a vote is appended only if no stored vote has its address", Rule: "K12"})
 		// quorum and membership are judged against the validator set of the view the vote is FOR
 		vals := "i:ProposerElectionInterface.GetValidators(p0.Election,chained_bft.(*QuorumCert).GetProposalView(chained_bft.(*Smr).VoteMsgToQC(p0,local<VoteMsg>)#0))"
 		c.ArgIs(hv, "CalVotesThreshold", 1, "len("+vals+")", 1, "2f+1 is computed over the validators of the voted proposal's view")
 		c.ArgIs(hv, "CheckVote", 2, vals, 1, "the voter must be a validator of the voted proposal's view")
-		c.StickyFlag(hv, "append", 1, "[*SignInfos[0]]", "the vote is a duplicate if ANY stored vote has its address, not only the last one scanned")
+		c.StickyFlag(hv, "append", 1, "[*SignInfos[0]]", q.Cond{Canon: "(*[].Address == *SignInfos[0].Address)", Sense: true}, "the vote is a duplicate if ANY stored vote has its address, not only the last one scanned")
 	}
 	// consensus plugins
 	td := c.Fn("bcs/consensus/tdpos::(*tdposConsensus).CheckMinerMatch")
